@@ -592,6 +592,8 @@ func run(c *core.Ctx) {
 		}
 		impostor(res, r, idA, idB, idM, old, fc)
 	}
+	universeMirror(res, core.RNG("c04/mirror"))
+	doubleDial(res, core.RNG("c04/doubledial"))
 	res.Sample(jobs[0].String())
 	res.Sample(jobs[len(jobs)/2].String())
 	res.Sample(jobs[len(jobs)-1].String())
@@ -614,6 +616,9 @@ func run(c *core.Ctx) {
 	res.Assume("Ed25519/X25519/BLAKE3 strength is assumed; the monitor shows that every authenticated byte of every handshake message and the fresh challenge are actually checked before a link is registered")
 	res.Assume("a handshake that is stuck (a message was dropped) is ended by closing the connection once both ends are parked in Read — what a peer or a TCP timeout would do")
 	res.Assume("for configurations with an empty universe and a secret the code never peers; the statement only demands that nothing is registered without proof")
+	res.Require(res.Counter("scripted_handshakes_completed") >= 1, "the scripted client never completed its positive-control handshake (%d unusable runs)", res.Counter("scripted_handshake_unusable"))
+	res.Require(res.Counter("universe_secret_intruders_refused") >= 2 || res.ViolationCount() > 0, "universe-secret intruder scenario not exercised")
+	res.Require(res.Counter("double_dial_second_connection_refused")+res.Counter("double_dial_second_link_sealed") >= 1 || res.ViolationCount() > 0, "double-dial scenario never reached its decisive step")
 	res.Require(res.Counter("honest_handshakes_completed") >= 8, "too few honest handshakes completed (positive control)")
 	res.Require(res.Counter("faults_refused:bitflip") >= 500, "fewer than 500 bit-flip faults reached an authenticated byte")
 }
